@@ -20,6 +20,9 @@ def run(tier, seed):
     common.acvp_anchor(chk, 0, 1 if tier == "quick" else 4, 0, seed)
     # the whole specification (hashing, samplers, codecs, rejection loop) on ring degree 8: staged = literal forms, Verify(Sign) = TRUE
     common.mc_leg(chk, "MC_SmallN", tier=tier, coverage=False, must_print=["REJECT1 taken", "REJECT2 taken"])
+    # shape of the challenge for EVERY hash output at reduced size (exactly tau coefficients +-1, unbiased), both eta
+    common.mc_leg(chk, "MC_Sampling")
+    common.mc_leg(chk, "MC_Sampling", cfg=os.path.join(common.MC_DIR, "MC_Sampling_eta4.cfg"))
     # samplers used by signing (ExpandMask, SampleInBall) at scale, rarest cases judged by TLC
     sw = os.path.join(chk.workdir, "sw")
     from concurrent.futures import ThreadPoolExecutor
